@@ -6,7 +6,7 @@ try:  # native side only
     from specs.control_loop import I1, I2, wf_ws, wf, Inv1, Inv2, quiescent  # noqa
     from specs.control_loop_b import same_keys, same_shape  # noqa
     from specs.control_loop_c import is_start_cmd  # noqa
-    from specs.control_loop_d import is_exit  # noqa
+    from specs.control_loop_d import is_exit, no_forged_telemetry  # noqa
 except ImportError:  # pragma: no cover
     pass
 
@@ -53,7 +53,10 @@ class ReduceTick:
         return (
             wf(init)
             and Inv1(init)
-            and ((not isinstance(tick, TickStepResult)) or tick.step_name in init.workers)
+            and (
+                (not isinstance(tick, TickStepResult))
+                or (tick.step_name in init.workers and no_forged_telemetry(tick))
+            )
         )
 
     def raises_ValueError(old, tick, init, now_seconds, run_id):
